@@ -14,8 +14,9 @@ import Mahotas.Proofs.C13Oracles
 import Mahotas.Proofs.C13OraclesNum
 import Mahotas.Proofs.C13OraclesFloat
 import Mahotas.Proofs.C13Wrappers
+import Mahotas.Proofs.C13Rounded
 import Mahotas.Proofs.Modes
-open Mahotas Mahotas.C13
+open Mahotas Mahotas.C13 Mahotas.C05
 
 /-- **C13-T1 (fold_eq, generic).** For every value type, operation `f`, identity `start`, number of
 labels `n` and list of `(value, label)` pixels in scan order: slot `l < n` of the model of `labeled_foldl`
@@ -630,3 +631,79 @@ example : bboxBorder [1, 2, 1, 3] 1 = [0, 3, 0, 4] ∧ bboxBorder [1, 2, 1, 3] 5
 
 example : removeRegionsWhere [0, 1, 1, 2, 2, 3] [0, 1, 0] = [0, 0, 0, 2, 2, 3] := by
   rw [C13_remove_regions_where_spec]; decide
+
+/-! ## Round 4 — the floating-point instances over the binary64 rounding model (`Proofs/C05Binary64.lean`)
+
+The round-3 theorems `C13_labeled_sum_float_oracle_eq_model_of_exact` / `C13_com_float_oracle_eq_model_of_exact` assume
+"every accumulation step is exact" as an IEEE fact about Lean's opaque `Float`. Below, the same polymorphic definitions
+(`labeledFold`, `comModelG`) are run with correctly rounded rational arithmetic and that fact is a theorem. -/
+
+/-- **C13 (binary64 is exact on dyadic data).** Round-to-nearest with a 53-bit significand — any tie rule (`rndBin n`), in
+particular IEEE `roundTiesToEven` (`rne53`) — returns every dyadic rational `k / 2^s` with `|k| ≤ 2^53` unchanged, for every
+scale `s`; and every abstract `Rounding` (monotone, relative error ≤ 2^-53, exact on integers up to 2^53) does so for `s = 0`
+(integer-valued data). Exponent range unbounded (no overflow/underflow is modelled). -/
+theorem C13_binary64_exact_on_dyadic (s : ℕ) :
+    ExactDyadic rne53 s ∧
+    (∀ (n : ℚ → ℤ), (∀ y, |(n y : ℚ) - y| ≤ 1 / 2) → ExactDyadic (rndBin n) s) ∧
+    (∀ rnd : ℚ → ℚ, Rounding rnd → ExactDyadic rnd 0) :=
+  ⟨exactDyadic_rne53 s, fun n hn => exactDyadic_rndBin n hn s, exactDyadic_of_rounding⟩
+
+/-- **C13 (labeled_sum in rounded arithmetic = exact sum).** `sumRounded rnd` is `labeledFold` — the definition the driver runs
+at `Float` — with the addition `rnd (a + r)` over ℚ. For every rounding exact on the dyadics of scale `s` (`rne53`, any
+`rndBin n`; any `Rounding` when `s = 0`), data `k_i / 2^s` and label `l < n`: if every partial sum (in scan order) of the
+integers `k_i` labelled `l` has magnitude at most `2^53`, then **no accumulation step rounds**: slot `l` is exactly
+`(Σ k_i) / 2^s`, which is the `l`-th entry of the harness' oracle `(foldSpec false "sum" …).map (· / 2^s)`. This discharges
+the exactness hypothesis of `C13_labeled_sum_float_oracle_eq_model_of_exact` in the rounding model — it is the fact the
+harness relies on when it feeds `k/8` data (`s = 3`) and compares bit-for-bit. -/
+theorem C13_labeled_sum_rounded_exact (rnd : ℚ → ℚ) (s : ℕ) (hr : ExactDyadic rnd s) (n : Nat)
+    (data labels : List Int) (l : Nat) (hl : l < n)
+    (hb : ∀ pre a rest, valuesOf (data.zip labels) (l : Int) = pre ++ a :: rest →
+      |((a + pre.sum : Int) : ℚ)| ≤ 2 ^ 53) :
+    (sumRounded rnd n ((data.map (dy s)).zip labels))[l]? = some (dy s (valuesOf (data.zip labels) (l : Int)).sum) ∧
+    (sumRounded rnd n ((data.map (dy s)).zip labels))[l]? =
+      ((foldSpec false "sum" n (data.zip labels)).map (dy s))[l]? :=
+  sumRounded_exact rnd s hr n data labels l hl hb
+
+/-- **C13 (labeled_sum in rounded arithmetic, sufficient bound).** The same conclusion when the absolute values of the
+integers labelled `l` sum to at most `2^53` (the harness: `|k| ≤ 400`, at most 216 pixels). -/
+theorem C13_labeled_sum_rounded_exact_of_abs_sum (rnd : ℚ → ℚ) (s : ℕ) (hr : ExactDyadic rnd s) (n : Nat)
+    (data labels : List Int) (l : Nat) (hl : l < n)
+    (hb : ((valuesOf (data.zip labels) (l : Int)).map fun v => |v|).sum ≤ 2 ^ 53) :
+    (sumRounded rnd n ((data.map (dy s)).zip labels))[l]? = some (dy s (valuesOf (data.zip labels) (l : Int)).sum) ∧
+    (sumRounded rnd n ((data.map (dy s)).zip labels))[l]? =
+      ((foldSpec false "sum" n (data.zip labels)).map (dy s))[l]? :=
+  sumRounded_exact rnd s hr n data labels l hl (partial_sums_bounded _ hb)
+
+/-- **C13 (center_of_mass in rounded arithmetic = correctly rounded exact centroid).** `comModelG (rndOps rnd)` is the
+definition the driver runs with `Float` operations, run with `rnd (a + b)`, `rnd (a * b)`, `rnd (a / b)`, `rnd c` over ℚ.
+For a rounding exact on the dyadics of scale `s` and on the integers (`rne53`, any `rndBin n`), data `k_i / 2^s`,
+non-negative labels (`[]` = no label map): if the coordinates, every product `k_i · coord_j`, and every partial sum (scan
+order, per label) of the `k_i` and of the `k_i · coord_j` have magnitude at most `2^53`, then both accumulations of the
+kernel are exact and the only rounding is the final division: every output entry is `rnd (Σ k·coord_j / Σ k)`, the
+correctly rounded exact centroid (the scale cancels; rows of empty labels give `rnd (0/0) = rnd 0`). This discharges the
+hypotheses of `C13_com_float_oracle_eq_model_of_exact` in the rounding model. -/
+theorem C13_com_rounded_exact (rnd : ℚ → ℚ) (s : ℕ) (hr : ExactDyadic rnd s) (hr0 : ExactDyadic rnd 0)
+    (shape : List Nat) (ks labels : List Int) (hnn : ∀ v ∈ labels, 0 ≤ v)
+    (hc : ∀ i j, (((unravel shape i).getD j 0 : Nat) : ℚ) ≤ 2 ^ 53)
+    (hprod : ∀ i j, |((ks.getD i 0 * ((unravel shape i).getD j 0 : Nat) : Int) : ℚ)| ≤ 2 ^ 53)
+    (htot : ∀ (l : Nat) (pre : List Nat) (i : Nat) (rest : List Nat),
+      ((List.range ks.length).filter fun i => labels.getD i 0 == (l : Int)) = pre ++ i :: rest →
+      |(((pre.map fun i => ks.getD i 0).sum + ks.getD i 0 : Int) : ℚ)| ≤ 2 ^ 53)
+    (hrow : ∀ (l j : Nat), j < shape.length → ∀ (pre : List Nat) (i : Nat) (rest : List Nat),
+      ((List.range ks.length).filter fun i => labels.getD i 0 == (l : Int)) = pre ++ i :: rest →
+      |(((pre.map fun i => ks.getD i 0 * ((unravel shape i).getD j 0 : Nat)).sum +
+          ks.getD i 0 * ((unravel shape i).getD j 0 : Nat) : Int) : ℚ)| ≤ 2 ^ 53) :
+    comModelG (rndOps rnd) shape (ks.map (dy s)) labels =
+      (comSpec shape ks labels).map fun nd => rnd ((nd.1 : ℚ) / (nd.2 : ℚ)) :=
+  comRounded_exact rnd s hr hr0 shape ks labels hnn hc hprod htot hrow
+
+/-! non-vacuity: binary64 `roundTiesToEven` on the harness' scale (`k/8`), label 1 of a three-pixel image: the rounded
+    fold returns exactly `(3 - 5)/8` -/
+example : (sumRounded rne53 2 (([3, -5, 12].map (dy 3)).zip [1, 1, 0]))[1]? = some (dy 3 (-2)) := by
+  have h := (C13_labeled_sum_rounded_exact_of_abs_sum rne53 3 (exactDyadic_rne53 3) 2 [3, -5, 12] [1, 1, 0] 1
+    (by decide) (by
+      have : valuesOf (([3, -5, 12] : List Int).zip [1, 1, 0]) ((1 : Nat) : Int) = [3, -5] := by decide
+      rw [this]; norm_num)).1
+  have hv : valuesOf (([3, -5, 12] : List Int).zip [1, 1, 0]) ((1 : Nat) : Int) = [3, -5] := by decide
+  rw [hv] at h
+  exact h
